@@ -30,12 +30,13 @@ class Ins(Edit):
 class ForLoop(Edit):
     """rule E1. pattern must match from `for` up to and including the `{` that opens the body."""
 
-    def __init__(self, pattern, it, spec, occ=1, into_iter=True, place=None, label=None, pre='', body_pre='', by_ref=True, wrap=None):
+    def __init__(self, pattern, it, spec, occ=1, into_iter=True, place=None, label=None, pre='', body_pre='', by_ref=True, wrap=None, via=None):
         # pre: ghost text between the iterator binding and `loop`; body_pre: ghost text at the start of the
         # loop body, before `let Some(p) = it.next() else { break };`
         self.pattern, self.it, self.spec, self.occ = pattern, it, spec, occ
         self.into_iter, self.place, self.label, self.pre, self.body_pre = into_iter, place, label, pre, body_pre
         self.by_ref = by_ref  # place given as `X.by_ref()`; False: the iterated expression is a `&mut I` variable itself
+        self.via = via  # rule E1: `for p in &coll` iterates `coll.iter()` (std: IntoIterator for &Collection is iter()); template with %s for the iterated expression
         self.wrap = wrap  # rule U5: `for p in E` iterates `WRAP(E)`, WRAP an external_body wrapper around E.into_iter() carrying the trusted std contract
 
 
@@ -585,7 +586,9 @@ class Extractor:
                         intro = '{ ' + e.pre
                     else:
                         itname = e.it
-                        if e.wrap:
+                        if e.via:
+                            intro = '{ let mut %s = %s; %s' % (itname, e.via % expr_txt, e.pre)
+                        elif e.wrap:
                             intro = '{ let mut %s = %s(%s); %s' % (itname, e.wrap, expr_txt, e.pre)
                         elif e.into_iter:
                             intro = '{ let mut %s = core::iter::IntoIterator::into_iter(%s); %s' % (itname, expr_txt, e.pre)
